@@ -235,6 +235,26 @@ def translate():
         return defn('arl_inq_vheaderlen', kw.right, ['hlen'])
     step('_arl.inqarlpackedbit.vheader', inqvh)
 
+    def bump():
+        fn = m.find('pack2d')
+        hits = []
+        for n_ in ast.walk(fn):
+            if (isinstance(n_, ast.If) and isinstance(n_.test, ast.Compare) and len(n_.test.ops) == 1 and isinstance(n_.test.ops[0], ast.Gt)
+                    and isinstance(n_.test.left, ast.BinOp) and isinstance(n_.test.left.op, ast.Mult)
+                    and isinstance(n_.test.left.left, ast.Name) and n_.test.left.left.id == 'RMAX'
+                    and isinstance(n_.test.left.right, ast.BinOp) and isinstance(n_.test.left.right.op, ast.Pow)
+                    and isinstance(n_.test.left.right.left, ast.Constant) and n_.test.left.right.left.value == 2.0
+                    and isinstance(n_.test.comparators[0], ast.Constant)
+                    and len(n_.body) == 1 and isinstance(n_.body[0], ast.Assign) and not n_.orelse):
+                hits.append(n_)
+        if len(hits) != 1:
+            raise U('pack2d: expected exactly one `if RMAX * 2.0**(..) > c: NEXP = ...`')
+        t = hits[0]
+        return (defn('arl_bump_shift', t.test.left.right.right, ['NEXP'])
+                + 'Definition arl_bump_limit : Z := %d.\n' % int(t.test.comparators[0].value)
+                + defn('arl_bump_nexp', t.body[0].value, ['NEXP']))
+    step('_arl.pack2d.range-bump', bump)
+
     def gridoff(t, p):
         return lambda: defn('arl_' + t, one(m.assignments('inqarlpackedbit', t), t), [p])
     step('_arl.inqarlpackedbit.gridx_off', gridoff('gridx_off', 'GRID_0'))
